@@ -9,7 +9,7 @@ Space (every member is visited, nothing sampled):
             nullable children, all-empty inner node, factorized rule with nullable remainder in both
             factorization modes, a bracket-less ListProds, a ProdSequence)
 Oracle: models/positions.py (own scanner, own line arithmetic).  Obligations per (text, form, config):
-  * real token list == reference token list (names, values of ordinary tokens, spans), ``$END$`` empty,
+  * real token list == reference token list (names and spans; values are not judged), ``$END$`` empty,
     not before the end of the last token, inside the text
   * unmatched character  =>  LexicalError whose src_pos.line is the line of that character
   * raw tree: leaves in document order are exactly the non-skipped tokens; a node that matched nothing
@@ -48,7 +48,7 @@ ASSUMPTIONS = [
     "token patterns never match the empty string",
     "whether trailing blanks of a line are tokenized is not fixed by the property: both accepted",
     "an unclosed span token is outside the statement: counted, not judged",
-    "values of span tokens and ParsingError positions are not compared (not part of the statement)",
+    "token values and ParsingError positions are not compared (not part of the statement)",
 ]
 REQUIRED_FEATURES = [
     "input:str", "input:list", "cfg:i", "cfg:ii", "cfg:iii", "lines:one", "lines:many", "blank-line",
@@ -65,7 +65,7 @@ REDUCED = ["ab", " ", "\n", "+", "/*", "*/"]     # thorough: longer texts over t
 
 _TIERS = {
     "quick": {"n": 5, "n_reduced": 0, "forms": ("str", "list")},
-    "thorough": {"n": 6, "n_reduced": 8, "forms": ("str", "list", "tuple")},
+    "thorough": {"n": 6, "n_reduced": 7, "forms": ("str", "list", "tuple")},
 }
 
 
@@ -133,7 +133,7 @@ def grammar_specs(cfg):
 
     def g_factorized():
         g = base()
-        g.update({"ITEM": [("ATOM", PL, "ATOM"), ("ATOM", PL), ("ATOM",)]})
+        g.update({"ITEM": [("ATOM", PL, "ATOM"), ("ATOM", PL, "OPT"), ("ATOM",)], "OPT": [(PL,), None]})
         return g
 
     def g_all_empty():
@@ -212,8 +212,6 @@ def _compare_tokens(actual, ref):
         if a_e != r.end:
             return ("span-token-end" if r.is_span else "token-end", f"token #{i} ends elsewhere",
                     _tok_view(a), exp)
-        if not r.is_span and a.value != r.value:
-            return ("token-value", f"token #{i} has another value", _tok_view(a), exp)
     if len(actual) != len(rt):
         return ("token-list-differs", "number of tokens differs",
                 [_tok_view(a) for a in actual], [repr(r) for r in rt])
@@ -228,6 +226,13 @@ def judge_tokens(parser, cfg, inp, lines, tx, feats):
         [P.scan(stripped_lines, cfg), raw] if isinstance(inp, str) else [raw, P.scan(stripped_lines, cfg)])
     ref0 = refs[0]
     feats |= ref0.feats
+    # features are taken from the reference scan, never from what the code under test did
+    if ref0.status == "lexerr":
+        feats.add("lexical-error")
+        if ref0.error_line > 1:
+            feats.add("lexical-error:line>1")
+    elif ref0.status == "unclosed":
+        feats.add("unclosed-span")
     try:
         toks = list(parser.tokenizer.tokenize(inp, "t"))
         err = None
@@ -298,7 +303,7 @@ def walk(node, R, k, endpos, tx, inp, feats, registry, skipped_before):
         _orig(node, inp, tx, "empty node")
         return k
     if isinstance(val, str):
-        if k >= len(R) or R[k].name != node.name or R[k].value != val:
+        if k >= len(R) or R[k].name != node.name:
             raise Viol("leaf-sequence", f"leaf '{node.name}' is not the next token of the text",
                        [node.name, val], repr(R[k]) if k < len(R) else "no token left")
         r = R[k]
